@@ -10,6 +10,7 @@ import (
 	"context"
 	"errors"
 	"io"
+	"strconv"
 	"strings"
 
 	"github.com/mgtv-tech/redis-GunYu/config"
@@ -395,4 +396,57 @@ func VerifC18ControlKeys() {
 		}
 	}
 	verifReach("c18.control")
+}
+
+// VerifC18KeyPositions: the write commands that name more than one key (reference list transcribed
+// from the Redis command reference: key positions in the argument vector) - a unit is built exactly
+// when all of them hash to one slot; putting a foreign-slot key at any single key position gets the
+// unit refused. Keys are concrete ({a}… and {b}… hash to different slots); what is decided is the
+// key-position knowledge the builder relies on.
+func VerifC18KeyPositions() {
+	type ref struct {
+		cmd  string
+		args []string // "K" marks a key position
+	}
+	refs := []ref{
+		{"rename", []string{"K", "K"}}, {"renamenx", []string{"K", "K"}}, {"copy", []string{"K", "K"}},
+		{"smove", []string{"K", "K", "m"}}, {"rpoplpush", []string{"K", "K"}}, {"brpoplpush", []string{"K", "K", "0"}},
+		{"lmove", []string{"K", "K", "LEFT", "RIGHT"}}, {"blmove", []string{"K", "K", "LEFT", "RIGHT", "0"}},
+		{"zrangestore", []string{"K", "K", "0", "-1"}},
+		{"sinterstore", []string{"K", "K", "K"}}, {"sunionstore", []string{"K", "K", "K"}}, {"sdiffstore", []string{"K", "K", "K"}},
+		{"pfmerge", []string{"K", "K", "K"}}, {"bitop", []string{"AND", "K", "K", "K"}},
+		{"mset", []string{"K", "v", "K", "v"}}, {"msetnx", []string{"K", "v", "K", "v"}},
+		{"del", []string{"K", "K", "K"}}, {"unlink", []string{"K", "K"}},
+	}
+	r := refs[verifChoose("cmd", len(refs))]
+	var kpos []int
+	for i, a := range r.args {
+		if a == "K" {
+			kpos = append(kpos, i)
+		}
+	}
+	foreign := verifChoose("foreignAt", len(kpos)+1) - 1 // -1: none
+	args := make([][]byte, len(r.args))
+	n := 0
+	for i, a := range r.args {
+		if a != "K" {
+			args[i] = []byte(a)
+			continue
+		}
+		tag := "{a}"
+		if n == foreign {
+			tag = "{b}"
+		}
+		args[i] = []byte(tag + strconv.Itoa(n))
+		n++
+	}
+	verifAssume(verifRefSlot("{a}0") != verifRefSlot("{b}0"))
+	unit, err := buildBisyncReplayUnitWithMode(1, 0, 10, false, nil, []bisyncAofCommand{{Cmd: r.cmd, Args: args}}, bisyncSlotMode{})
+	verifObserve("built", verifB2I(err == nil))
+	if foreign < 0 {
+		verifAssert(err == nil && unit != nil && unit.Slot == verifRefSlot("{a}0"), "C18.same-slot-unit-refused")
+	} else {
+		verifAssert(err != nil, "C18.cross-slot-unit-built")
+	}
+	verifReach("c18.keypositions.done")
 }
